@@ -258,7 +258,7 @@ pub fn run_once(layout: &Layout, cfg: &EnvCfg, prefix: &[u16], fail_at: Option<u
 // Oracle: the first discrepancy of an execution, classified by where it occurs
 
 #[derive(Clone, Debug)]
-pub struct Discrepancy { pub prop: &'static str, pub clause: &'static str, pub detail: String, pub at_call: usize }
+pub struct Discrepancy { pub prop: &'static str, pub also: Option<&'static str>, pub clause: &'static str, pub detail: String, pub at_call: usize }
 
 fn fold(held: &mut Vec<KeyCode>, evs: &[Event]) {
   for e in evs { match e { Pressed(k) => { if !held.contains(k) { held.push(*k); } } Released(k) => held.retain(|x| x != k) } }
@@ -284,7 +284,11 @@ pub fn judge(layout: &Layout, x: &Exec) -> (Option<Discrepancy>, Stats) {
   let mut expect: Option<Expect> = None;
   let mut last_poll_timed_out = false;
   let mut reads_this_wakeup = 0;
-  let d = |prop, clause, detail: String, at| Some(Discrepancy { prop, clause, detail, at_call: at });
+  // physical key state as the loop has read it since the last fresh start (decides which events are key *changes*)
+  let mut phys: Vec<KeyCode> = vec![];
+  let mut timer_cancelled_by_tablet = false;
+  let absorbable: Vec<KeyCode> = layout.mappings.iter().flat_map(|m| m.absorbing.iter().cloned()).collect();
+  let d = |prop, clause, detail: String, at| Some(Discrepancy { prop, also: None, clause, detail, at_call: at });
   for (i, c) in x.log.iter().enumerate() {
     if st.ended { return (d("C10", "driver-call-after-end-of-device", format!("{:?} after the device reported it is gone", c), i), st); }
     // an owed write must be the very next driver call
@@ -317,7 +321,13 @@ pub fn judge(layout: &Layout, x: &Exec) -> (Option<Discrepancy>, Stats) {
       Call::Failed { .. } => { break; }
       Call::Send { evs, .. } => {
         if tablet { return (d("C12", "write-during-tablet-mode", format!("{} written while in tablet mode", ev_str(evs)), i), st); }
-        if last_poll_timed_out { return (d("C11", "chord-at-wrong-time", format!("{} written after a time-out although no chord was due (timer {:?})", ev_str(evs), timer.as_ref().map(|t| (t.1, t.2))), i), st); }
+        if last_poll_timed_out {
+          // "no repeat chord is written at any other time" (C11); when the timer had been cancelled by a tablet-mode change it is
+          // equally a failure to "resume as from a fresh start" (C12): the discrepancy belongs to both statements
+          let mut dd = d("C11", "chord-at-wrong-time", format!("{} written after a time-out although no chord was due (timer {:?}{})", ev_str(evs), timer.as_ref().map(|t| (t.1, t.2)), if timer_cancelled_by_tablet { ", cancelled by a tablet-mode change" } else { "" }), i);
+          if timer_cancelled_by_tablet { if let Some(x) = dd.as_mut() { x.also = Some("C12"); } }
+          return (dd, st);
+        }
         return (d("C10", "unexpected-write", format!("{} written although the mapper produced no output to write", ev_str(evs)), i), st);
       }
       Call::Poll { timeout_us, at_us, ret, after_us, unread_k, unread_t, label } => {
@@ -350,10 +360,16 @@ pub fn judge(layout: &Layout, x: &Exec) -> (Option<Discrepancy>, Stats) {
           if tablet { st.tablet_reads_skipped += 1; continue; }
           let r = mref.step(ev.clone());
           if !r.events.is_empty() { expect = Some(Expect::Step(r.events.clone())); }
-          match r.repeat {
-            ResultingRepeat::Repeating { keys, delay_ms, interval_ms } => { st.timers_started += 1; timer = Some((keys, at_us + (delay_ms as u64) * 1000, (interval_ms as u64) * 1000)); }
-            ResultingRepeat::Disabled => { if timer.is_some() { st.timers_cancelled_by_event += 1; } timer = None; }
-            ResultingRepeat::NoChange => { if timer.is_some() { st.ignored_event_during_timer += 1; } }
+          // is this event a key change?  decided from the physical history, not from the mapper's answer
+          // (for a key some mapping can absorb the mapper's own view is the only one available)
+          let (k, press) = match ev { Pressed(k) => (*k, true), Released(k) => (*k, false) };
+          let held_before = phys.contains(&k);
+          let acted = if absorbable.contains(&k) { r.repeat != ResultingRepeat::NoChange } else { press != held_before };
+          if press { if !held_before { phys.push(k); } } else { phys.retain(|x| *x != k); }
+          match (acted, r.repeat) {
+            (true, ResultingRepeat::Repeating { keys, delay_ms, interval_ms }) => { st.timers_started += 1; timer_cancelled_by_tablet = false; timer = Some((keys, at_us + (delay_ms as u64) * 1000, (interval_ms as u64) * 1000)); }
+            (true, _) => { if timer.is_some() { st.timers_cancelled_by_event += 1; } timer = None; }
+            (false, _) => { if timer.is_some() { st.ignored_event_during_timer += 1; } }
           }
         }
       }
@@ -361,7 +377,9 @@ pub fn judge(layout: &Layout, x: &Exec) -> (Option<Discrepancy>, Stats) {
         if *end { st.ended = true; continue; }
         if let Some(b) = ev {
           tablet = *b;
+          if timer.is_some() { timer_cancelled_by_tablet = true; }
           timer = None;
+          phys.clear();
           mref = Mapper::for_layout(layout); // "resumes as from a fresh start"
           if !held.is_empty() { expect = Some(Expect::Reset); }
         }
@@ -481,8 +499,8 @@ pub fn explore_family(ctx: &Ctx, fam: &BFamily, own_prop: &str, inject: bool, ca
           }
           if x.trace.len() > 0 && x.now_calls == 0 && st.timers_started > 0 { agg.machinery = Some("the loop armed a timer without reading the virtual clock: Instant/thread are no longer shadowed".into()); }
           if let Some(dc) = disc {
-            if dc.prop == own_prop {
-              agg.add_viol((dc.prop.to_string(), dc.clause.to_string()), (1, x.trace.iter().map(|t| t.0).collect(), dc.detail.clone(), None));
+            if dc.prop == own_prop || dc.also == Some(own_prop) {
+              agg.add_viol((own_prop.to_string(), dc.clause.to_string()), (1, x.trace.iter().map(|t| t.0).collect(), dc.detail.clone(), None));
             } else { *agg.foreign.entry(format!("{}/{}", dc.prop, dc.clause)).or_insert(0) += 1; }
           }
           if agg.samples.len() < 2 && x.log.len() > 12 && agg.executions % 101 == 7 { agg.samples.push(json!({"family": fam.name, "choices": x.trace.iter().map(|t| t.0).collect::<Vec<_>>(), "log": log_json(&x.log)})); }
